@@ -86,6 +86,7 @@ def several_handles(ctx, name, files, depth, selections=SELECTIONS, max_open=3, 
             else:
                 recfile.write(p, tables[f], delim=delim)
             paths[f] = p
+        nfd0 = len(os.listdir("/proc/self/fd"))
         pool = dict(neg1=np.array([-1], dtype="i8"), rows02=np.array([0, 2], dtype="i8"))
         keep = {k: v.copy() for k, v in pool.items()}
         handles = {}
@@ -149,6 +150,8 @@ def several_handles(ctx, name, files, depth, selections=SELECTIONS, max_open=3, 
                 h.close()
             except Exception:
                 pass
+        if msg is None and len(os.listdir("/proc/self/fd")) != nfd0:
+            msg = "after %r and closing every handle %d file descriptor(s) are still open" % (hist, len(os.listdir("/proc/self/fd")) - nfd0)
         for p in paths.values():
             if os.path.exists(p):
                 os.unlink(p)
